@@ -283,12 +283,24 @@ func (ctx *fromJSONSchemaContext) convertString(s *lib.Schema) (core.ZodSchema, 
 	if s.Format != nil {
 		formatSchema := ctx.getFormatSchema(*s.Format)
 		if formatSchema != nil {
-			// Note: Format schemas don't support minLength/maxLength/pattern
-			// In strict mode, we could error here if those are present
-			return formatSchema, nil
+			if s.MinLength == nil && s.MaxLength == nil && s.Pattern == nil {
+				return formatSchema, nil
+			}
+			// The dedicated format schemas have no length or pattern checks:
+			// the string must satisfy the format and the plain string constraints.
+			constrained, err := ctx.constrainedString(s)
+			if err != nil {
+				return nil, err
+			}
+			return types.Intersection(formatSchema, constrained), nil
 		}
 	}
 
+	return ctx.constrainedString(s)
+}
+
+// constrainedString is the plain string schema with minLength, maxLength and pattern.
+func (ctx *fromJSONSchemaContext) constrainedString(s *lib.Schema) (core.ZodSchema, error) {
 	// Standard string schema
 	schema := types.String()
 
